@@ -101,7 +101,8 @@ LINE_REPS = {
     'BD1': [b'--' + B1], 'END1': [b'--' + B1 + b'--'],
     'BD2': [b'--' + B2], 'END2': [b'--' + B2 + b'--'],
 }
-_LINE_TOKEN = {}
+CTM_LINE = b'Content-Type: message/rfc822'
+_LINE_TOKEN = {CTM_LINE: 'HDR'}
 for _k, _v in LINE_REPS.items():
     for _x in _v:
         _LINE_TOKEN[_x] = _k
@@ -112,8 +113,13 @@ def conc_lines(toks, nl: bool, rng: random.Random | None, eol: bytes | None = No
     """EOL.join(lines) + (EOL if nl).  rng None: canonical representatives,
     CRLF.  filler > 0: TEXT lines are padded to that many bytes."""
     lines = []
+    # a message that is not multipart may itself be a message/rfc822 entity (a bare
+    # forward): one more representative of a header line, top-level laws only (judge)
+    ctm = rng is not None and not ({'CT1', 'CT2'} & set(toks)) and rng.random() < 0.25
     for t in toks:
         ln = LINE_REPS[t][0] if rng is None else rng.choice(LINE_REPS[t])
+        if ctm and t == 'HDR':
+            ln, ctm = CTM_LINE, False
         if filler and t == 'TEXT':
             ln = ln + b' ' + bytes(rng.choice(b'abcXYZ\x80\xfe01 ') for _ in range(filler))
         lines.append(ln)
@@ -377,7 +383,9 @@ def judge(data: bytes, obs: dict, pred: Pred | None, backend: str, place: str):
             fails.append(('partial', None, {'o': o, 'n': k, 'got': None if val is None else val[:100]}))
             break
     pl = {lf[0]: lf for lf in (p.leaves if p else ())}
-    for path, size, body, mime in obs['leaves']:
+    # the parts of an encapsulated message are not modelled: top-level clauses only
+    encaps = CTM_LINE.lower() in base.lower()
+    for path, size, body, mime in (() if encaps else obs['leaves']):
         if body is None:
             continue
         if size != len(body) and not (unjudged and not (
@@ -401,7 +409,9 @@ def judge(data: bytes, obs: dict, pred: Pred | None, backend: str, place: str):
         for k in ('raw', 'hdr', 'txt'):
             if obs[k] != want[k]:
                 drift.append({'what': k, 'model': want[k][:80], 'real': obs[k][:80]})
-        if obs.get('shape') is not None and obs['shape'] != p.shape:
+        if encaps:
+            pass
+        elif obs.get('shape') is not None and obs['shape'] != p.shape:
             drift.append({'what': 'part tree', 'model': p.shape, 'real': obs['shape']})
         elif obs.get('shape') is not None:
             for path, size, body, _m in obs['leaves']:
@@ -699,7 +709,7 @@ def main(tier: str) -> int:
         'exhaustive only for class strings up to the stated length and line '
         'token messages up to the stated number of lines; lengths up to 64 KiB '
         'and deep MIME nesting are SAMPLED (seeded), not decided',
-        'message/rfc822 nesting and BINARY (decoded) fetches are not modelled',
+        'the parts of message/rfc822 entities and BINARY (decoded) fetches are not modelled (a non-multipart message that is itself message/rfc822 is judged on the top-level clauses: BODY[], RFC822, SIZE, HEADER+TEXT, partials)',
         'maildir: clauses other than "stored = appended" are judged against '
         'the stored bytes when the store rewrote the message (known findings)',
     ]
